@@ -243,7 +243,10 @@ func Random(r *kit.Rng, s *schema.Node, o GenOpts, depth int) *Tree {
 			}
 			seen := map[string]bool{}
 			for i := 0; i < n; i++ {
-				v := Value(r, c, GenOpts{NoZero: true})
+				v := Value(r, c, GenOpts{NoZero: true, Nasty: o.Nasty})
+				if v == "" {
+					v = "x" // (the nasty pool holds the empty string; items stay non-zero)
+				}
 				if !seen[v] {
 					seen[v] = true
 					vs = append(vs, v)
